@@ -91,11 +91,19 @@ func (f *Fix) RandomPrefix(s *sim.Env, rng *sim.Rng, steps int) []string {
 	users := []sdk.AccAddress{f.Owner, f.Other}
 	amt := func() int64 { return []int64{1, 2, 3, 5, 8}[rng.Intn(5)] * unit }
 	liquidated := false
+	steps = steps/2 + rng.Intn(steps+1) // histories of different lengths
 	for n := 0; n < steps; n++ {
 		u := users[rng.Intn(2)]
 		var name string
 		var msg sdk.Msg
-		switch rng.Intn(21) {
+		switch rng.Intn(23) {
+		case 21:
+			// the other user closes one of his own positions (shifts lookup tables / counters next to the owner's positions)
+			u = f.Other
+			name, msg = "vault.close", &vaulttypes.MsgCloseRequest{From: u.String(), AppId: f.AppHarbor, ExtendedPairVaultId: f.EpAtom, UserVaultId: f.vaultID(s, u, f.EpAtom)}
+		case 22:
+			u = f.Other
+			name, msg = "locker.close", &lockertypes.MsgCloseLockerRequest{Depositor: u.String(), AppId: f.AppHarbor, AssetId: f.CMST, LockerId: f.lockerID(s, u)}
 		case 20:
 			// breaker switched on and off again by the admin: leaves a kill-switch record with BreakerEnable = false
 			app := []uint64{f.AppHarbor, f.AppCommodo}[rng.Intn(2)]
